@@ -439,7 +439,10 @@ def support_case(ctx, rng, idx):
     if what == 'negative_scale':
         theta[n_dim + int(rng.integers(n_dim))] *= -1
     else:
-        obs[int(rng.integers(n_ids)), int(rng.integers(n_dim))] *= -1
+        # outside the support: psi < 0, and the boundary psi = 0 itself (the
+        # documented densities are 0 for psi <= 0)
+        obs[int(rng.integers(n_ids)), int(rng.integers(n_dim))] *= \
+            [-1, 0.0, -0.0][int(rng.integers(3))]
     feats = {'class': GP.leaf_code(leaf), 'what': what}
     ctx.case(('support', GP.leaf_code(leaf), what), True, sample=dict(
         feats, parameters=theta, observations=obs))
